@@ -174,6 +174,7 @@ def main(ctx, replay=None):
                 ctx.violation(f"write_energy -> read_energy does not reproduce {bad} for counts {(nv, nq, np_)}, magnitude {mag:.3g}",
                               {"counts": [nv, nq, np_], "mag": mag}, {"clause": "roundtrip", "what": bad})
         static_tables(ctx, rng, tmp, read_elast_data)
+        reread_after_use(ctx, rng, tmp, read_elast_data)
         fill_roundtrip(ctx, rng, tmp, read_elast_data)
     finally:
         import shutil
@@ -242,6 +243,42 @@ def static_tables(ctx, rng, tmp, read_elast_data):
                 bad = "spurious lattice block"
         if bad:
             ctx.violation(f"read_elast_data: {bad} wrong for columns {names}", {"text": "\n".join(lines)}, {"clause": "elast_value", "what": bad})
+
+
+def reread_after_use(ctx, rng, tmp, read_elast_data):
+    """Reading a static table yields the TABULATED components - also when the same, unchanged file was read before in this process and the
+    object parsed then has been used the way `cij run` uses it (symmetry filling applied to it in place)."""
+    from cij.io.traditional.elast_dat import apply_symetry_on_elast_data
+    from cij.util import c_
+    for system, cols in (("cubic", {(1, 1): 300.0, (1, 2): 120.0, (4, 4): 80.0}),
+                         ("hexagonal", {(1, 1): 310.0, (1, 2): 95.0, (1, 3): 70.0, (3, 3): 280.0, (4, 4): 60.0}),
+                         ("orthorhombic", {(1, 1): 300.0, (2, 2): 290.0, (3, 3): 280.0, (1, 2): 100.0, (1, 3): 90.0, (2, 3): 80.0, (4, 4): 70.0, (5, 5): 60.0, (6, 6): 50.0})):
+        nv = int(rng.integers(2, 6))
+        vols = [400.0 - 20.0 * i for i in range(nv)]
+        fac = [1.0 + 0.07 * i for i in range(nv)]
+        ks = list(cols)
+        lines = ["static table", f"400.0 {nv} 100.0", "V " + " ".join("c%d%d" % k for k in ks)]
+        for i in range(nv):
+            lines.append(" ".join([repr(vols[i])] + [repr(cols[k] * fac[i]) for k in ks]))
+        f = tmp / f"elast_{system}.dat"
+        f.write_text("\n".join(lines) + "\n")
+        exp = [{c_(*k): cols[k] * fac[i] for k in ks} for i in range(nv)]
+        ctx.count({"static_reread": system, "nv": nv})
+        try:
+            d1 = read_elast_data(str(f))
+            apply_symetry_on_elast_data(d1, {"system": system})
+            d2 = read_elast_data(str(f))
+            d3 = read_elast_data(str(f))
+        except Exception as ex:                                                    # noqa: BLE001
+            ctx.violation(f"reading / filling / re-reading a {system} table raised {ex!r}", {"text": "\n".join(lines)}, {"clause": "elast_raises"})
+            continue
+        for which, d in (("second", d2), ("third", d3)):
+            got = [dict(v.static_elastic_modulus) for v in d.volumes]
+            if got != exp or [v.volume for v in d.volumes] != vols:
+                ctx.violation(f"read_elast_data: the {which} read of an unchanged {system} table (after the symmetry filling was applied to the first "
+                              f"parsed object) does not yield the tabulated components: {len(got[0]) if got else 0} components per row, the file lists {len(ks)}",
+                              {"text": "\n".join(lines)}, {"clause": "elast_value", "what": "re-read after use"})
+                break
 
 
 def fill_roundtrip(ctx, rng, tmp, read_elast_data):
